@@ -407,6 +407,25 @@ func c14chain(rec *mon.Recorder, r *mon.Rand, k c14key, idx int) {
 		fail("public-from-private-after-wire", fmt.Errorf("err=%v", err))
 		return
 	}
+	// the same bytes decoded into a Key variable that already held another key (public-only, verify-only)
+	used, _ := cose.NewKeyFromPublic(&gen.ECKeyFromD(elliptic.P256(), big.NewInt(77)).PublicKey)
+	used.Ops = []cose.KeyOp{cose.KeyOpVerify}
+	used.ID = []byte("previous")
+	if guard(rec, "Key.UnmarshalCBOR(reused)", in, func() { err = used.UnmarshalCBOR(sb) }) {
+		return
+	}
+	if err != nil {
+		fail("private-unmarshal-into-used-variable", err)
+		return
+	}
+	if got, e := used.PrivateKey(); e != nil || !k.priv.Equal(got) {
+		fail("private-after-wire-into-used-variable", e)
+		return
+	}
+	if _, e := used.Signer(); (e != nil) != func() bool { _, e2 := sk2.Signer(); return e2 != nil }() {
+		fail("signer-differs-for-used-variable", e)
+		return
+	}
 	// second cycle is a fixed point
 	if sb2, e := sk2.MarshalCBOR(); e != nil || !eqBytes(sb2, sb) {
 		fail("private-second-encoding-differs", e)
